@@ -34,7 +34,7 @@ def _open(case, uri):
 def _kwargs(o, chunk):
     kw = dict(cis_only=o["mode"] == "cis", trans_only=o["mode"] == "trans", ignore_diags=o["diags"] if o["diags"] else False,
               mad_max=5 if o["mad"] else 0, min_nnz=o["min_nnz"], min_count=o["min_count"],
-              rescale_marginals=o["rescale"], tol=1e-5, max_iters=120, chunksize=chunk if chunk else None)
+              rescale_marginals=o["rescale"], tol=1e-5, max_iters=o.get("max_iters", 120), chunksize=chunk if chunk else None)
     if o["black"]:
         kw["blacklist"] = np.array(o["black"], dtype=int)
     if o["x0"]:
@@ -77,7 +77,7 @@ def bl_balance(case, ctx):
             from click.testing import CliRunner
             from cooler.cli import cli
             args = ["balance", path, "--ignore-diags", str(o["diags"]), "--mad-max", str(5 if o["mad"] else 0),
-                    "--min-nnz", str(o["min_nnz"]), "--min-count", str(o["min_count"]), "--max-iters", "120", "--force"]
+                    "--min-nnz", str(o["min_nnz"]), "--min-count", str(o["min_count"]), "--max-iters", str(o.get("max_iters", 120)), "--force"]
             if case["chunk"]:
                 args += ["--chunksize", str(case["chunk"])]
             if case.get("nproc"):
